@@ -157,6 +157,10 @@ class ExcelType:
     def __hash__(self):
         return hash(self.value)
 
+    def __reduce__(self):
+        # Needed for copying and pickling, since `__new__` requires a value.
+        return (self.__class__, (self.value,))
+
     def __repr__(self):
         return f'<{self.__class__.__name__} {repr(self.value)}>'
 
